@@ -58,7 +58,7 @@ CONTEXTS = ["root", "subdir", "dash-C", "worktree"]
 
 def script(sc, context):
     rng = sc.rng
-    sc.files = ["src/unié 中.txt", "a b.txt", "plain.txt"]
+    sc.files = ["src/unié 中.txt", "a b.txt", "plain.txt", "src/plain.txt"]   # the same name at the root and in the sub-directory
     for f in sc.files:
         sc.write(f, [sc.fresh("human", hostile=False) for _ in range(rng.randrange(3, 9))])
     sc.w.subdir = "src"
@@ -71,6 +71,8 @@ def script(sc, context):
         sc.nr.repo = wt
     elif context in ("subdir", "dash-C"):
         sc.w.invoke = context
+        if context == "subdir":
+            sc.blame_ctx = "subdir"     # `git-ai blame` has no -C; outside any repository git blame itself refuses an absolute path
     sc.after_step("init")
     for ci in range(rng.choice([2, 3])):
         for _ in range(rng.randrange(1, 5)):
